@@ -155,7 +155,9 @@ func main() {
 		fmt.Fprintln(os.Stderr, "need -prop or -func")
 		os.Exit(2)
 	}
-	os.Exit(runProperty(e, *prop, *tier, *propsFile, *evidence, *replays, *known, to, dir, t0))
+	rc := runProperty(e, *prop, *tier, *propsFile, *evidence, *replays, *known, to, dir, t0)
+	os.RemoveAll(dir) // os.Exit does not run deferred calls
+	os.Exit(rc)
 }
 
 func tmpBase() string {
